@@ -431,4 +431,6 @@ def generate_main(ctx, props, precisions=("double",), symbolic_threads=False, cf
 
 
 def generate(ctx):
-    generate_main(ctx, S_PROPS & ctx.props)
+    # thorough tier: both storage precisions (the quick tier proves double; precision is proved to be
+    # storage-only for both in the C12 run)
+    generate_main(ctx, S_PROPS & ctx.props, precisions=("double",) if ctx.tier == "quick" else ("single", "double"))
